@@ -417,13 +417,12 @@ type engine struct {
 	properA    int
 	flushed    bool
 
-	segs    map[int][]byte
+	segs     map[int][]byte
 	openedBy map[int]opener // the write after which segment seq-1 was first seen complete: it opened seq
 	allPTS   []int64        // stamp of every written frame, by arrival
 	cur      opener         // the write in progress
-	lastSeq int
-	closed  bool
-
+	lastSeq  int
+	closed   bool
 
 	readers []*keptReader
 	held    []heldPlaylist
